@@ -27,7 +27,6 @@ package main
 // transition system.
 
 import (
-	"errors"
 	"fmt"
 	"os"
 	"runtime"
@@ -39,24 +38,34 @@ import (
 	"syscall"
 	"time"
 
-	"github.com/krotik/ecal/config"
 	"github.com/krotik/ecal/engine"
-	"github.com/krotik/ecal/interpreter"
-	"github.com/krotik/ecal/parser"
 	"github.com/krotik/ecal/stdlib"
 	"github.com/krotik/ecal/verifhook"
 )
 
 type c02Node struct {
 	parent, prule int
-	kind          byte
-	rules         string
-	children      map[int][]int
+	kind          byte   // t triggering, s skipped (no rule for the kind), z triggering without a matching rule
+	rules         string // o ok, x error, O/X the same after blocking for a while, r (ECAL) sink ends in `return`
+	link          byte   // how the event is added: c child monitor of the adding action's monitor;
+	// n new root monitor + AddEventAndWait inside the action (nested wait); d new root monitor /
+	// nil monitor / ECAL scope argument, not waited for; l (ECAL) addEvent inside a for loop of the
+	// sink; u (ECAL) addEvent inside a user function called by the sink
+	children map[int][]int
+	unit     int // the (sub-)cascade the node belongs to
 }
 
 type c02Casc struct {
 	mode  byte
 	nodes []c02Node
+}
+
+// c02Unit is one root monitor's cascade: the outer cascade of a plan, or a nested / detached one
+// started by an action.
+type c02Unit struct {
+	ci, root int
+	mode     byte // w AddEventAndWait, a AddEvent + finish handler, n nested wait, d detached
+	via      byte
 }
 
 type c02Plan struct {
@@ -65,7 +74,11 @@ type c02Plan struct {
 	seed      uint64
 	sched     int // schedule mode, see c02Hook
 	ecal      bool
+	noHandler bool // H0: no finish handler is set (w mode)
+	noErrObs  bool // E0: no root monitor error observer
+	prios     bool // P1: child monitors get different priorities
 	cascs     []c02Casc
+	units     []c02Unit
 }
 
 func c02Parse(p string) *c02Plan {
@@ -84,13 +97,19 @@ func c02Parse(p string) *c02Plan {
 			pl.sched = int(v)
 		case 'M':
 			pl.ecal = v == 1
+		case 'H':
+			pl.noHandler = v == 0
+		case 'E':
+			pl.noErrObs = v == 0
+		case 'P':
+			pl.prios = v == 1
 		}
 	}
-	for _, cs := range f[1:] {
+	for ci, cs := range f[1:] {
 		c := c02Casc{mode: cs[0]}
 		for _, ns := range strings.Split(cs[2:], "/") {
 			x := strings.Split(ns, ".")
-			n := c02Node{parent: -1, prule: -1, kind: x[2][0], children: map[int][]int{}}
+			n := c02Node{parent: -1, prule: -1, kind: x[2][0], link: 'c', children: map[int][]int{}}
 			if x[0] != "-" {
 				n.parent, _ = strconv.Atoi(x[0])
 				n.prule, _ = strconv.Atoi(x[1])
@@ -98,10 +117,28 @@ func c02Parse(p string) *c02Plan {
 			if x[3] != "-" {
 				n.rules = x[3]
 			}
+			if len(x) > 4 {
+				n.link = x[4][0]
+			}
+			ni := len(c.nodes)
+			switch {
+			case n.parent < 0:
+				n.unit = len(pl.units)
+				pl.units = append(pl.units, c02Unit{ci: ci, root: 0, mode: c.mode})
+			case n.link != 'c':
+				n.unit = len(pl.units)
+				m := byte('d')
+				if n.link == 'n' {
+					m = 'n'
+				}
+				pl.units = append(pl.units, c02Unit{ci: ci, root: ni, mode: m, via: n.link})
+			default:
+				n.unit = c.nodes[n.parent].unit
+			}
 			c.nodes = append(c.nodes, n)
 			if n.parent >= 0 {
 				pn := &c.nodes[n.parent]
-				pn.children[n.prule] = append(pn.children[n.prule], len(c.nodes)-1)
+				pn.children[n.prule] = append(pn.children[n.prule], ni)
 			}
 		}
 		pl.cascs = append(pl.cascs, c)
@@ -116,24 +153,43 @@ func (c *c02Casc) String() string {
 		if r == "" {
 			r = "-"
 		}
+		l := ""
+		if n.link != 'c' && n.link != 0 {
+			l = "." + string(n.link)
+		}
 		if n.parent < 0 {
 			ns = append(ns, fmt.Sprintf("-.-.%c.%s", n.kind, r))
 		} else {
-			ns = append(ns, fmt.Sprintf("%d.%d.%c.%s", n.parent, n.prule, n.kind, r))
+			ns = append(ns, fmt.Sprintf("%d.%d.%c.%s%s", n.parent, n.prule, n.kind, r, l))
 		}
 	}
 	return string(c.mode) + "=" + strings.Join(ns, "/")
 }
 
 // c02GenCasc draws a cascade shape: fan-out <= 4, depth <= 4, at most maxNodes nodes.
-func c02GenCasc(r *Rand, maxNodes int, pFail int) c02Casc {
+// rich: also nested waits, detached events, blocking actions (and, through ECAL, addEvent inside a
+// loop / a user function, sinks ending in return); nested: how many nested waits may still be drawn.
+func c02GenCasc(r *Rand, maxNodes int, pFail int, rich bool, ecal bool, nested *int) c02Casc {
 	c := c02Casc{mode: 'w'}
 	if r.Intn(4) == 0 {
 		c.mode = 'a'
 	}
 	type item struct{ idx, depth int }
 	mk := func(parent, prule, depth int) c02Node {
-		n := c02Node{parent: parent, prule: prule, kind: 't', children: map[int][]int{}}
+		n := c02Node{parent: parent, prule: prule, kind: 't', link: 'c', children: map[int][]int{}}
+		if rich && parent >= 0 {
+			switch x := r.Intn(100); {
+			case x < 7 && *nested > 0:
+				n.link = 'n'
+				*nested--
+			case x < 15:
+				n.link = 'd'
+			case x < 20 && ecal:
+				n.link = 'l'
+			case x < 25 && ecal:
+				n.link = 'u'
+			}
+		}
 		switch x := r.Intn(20); {
 		case x < 3:
 			n.kind = 's'
@@ -146,11 +202,17 @@ func c02GenCasc(r *Rand, maxNodes int, pFail int) c02Casc {
 		if n.kind == 't' {
 			k := 1 + r.Intn(3)
 			for i := 0; i < k; i++ {
+				ch := "o"
 				if r.Intn(100) < pFail {
-					n.rules += "x"
-				} else {
-					n.rules += "o"
+					ch = "x"
+					if rich && ecal && r.Intn(8) == 0 {
+						ch = "r"
+					}
 				}
+				if rich && ch != "r" && r.Intn(7) == 0 {
+					ch = strings.ToUpper(ch)
+				}
+				n.rules += ch
 			}
 		}
 		return n
@@ -250,6 +312,7 @@ type c02State struct {
 	low     int
 	cmu     sync.Mutex
 	counts  map[string]int
+	expect  map[uint64]int // goroutine -> unit whose root monitor the goroutine is about to create
 }
 
 var c02Cur atomic.Pointer[c02State]
@@ -370,18 +433,25 @@ func c02Hook(point string, args ...interface{}) {
 		return v
 	}
 	var gid uint64
-	if point == "cascade.pop" || (point == "cascade.wait.registered" && st.plan.ecal) || st.plan.sched == 4 {
+	root := u(0)
+	st.mu.Lock()
+	_, known := st.rootOf[root]
+	st.mu.Unlock()
+	if point == "cascade.pop" || st.plan.sched == 4 || !known {
 		gid = c02Goid()
 	}
 	st.mu.Lock()
 	st.hooks++
-	root := u(0)
-	if point == "cascade.wait.registered" && st.plan.ecal {
-		// the root monitor was created inside the addEventAndWait builtin: bind it to the cascade
-		if ci, ok := st.goCasc[gid]; ok {
-			st.rootOf[root] = ci
-			st.dense[root] = 0
-			st.nextID[ci] = 1
+	if !known {
+		// a root monitor created inside the engine / a builtin: the goroutine announced the unit
+		// (x.c02expect / nil-monitor AddEvent), or it is the goroutine evaluating an outer addEventAndWait
+		if un, ok := st.expect[gid]; ok {
+			st.bind(root, un)
+			delete(st.expect, gid)
+		} else if un, ok := st.goCasc[gid]; ok && point == "cascade.wait.registered" {
+			if _, taken := st.nextID[un]; !taken {
+				st.bind(root, un)
+			}
 		}
 	}
 	const (
@@ -620,498 +690,6 @@ func c02NilEntries(errs []*engine.TaskError) int {
 
 type c02Fin interface{ IsFinished() bool }
 
-var c02Stderr *os.File
-
-func c02Run(payload string) string {
-	if c02Stderr != nil {
-		fmt.Fprintf(c02Stderr, "CASE %s\n", payload)
-	}
-	plan := c02Parse(payload)
-	st := &c02State{plan: plan, rng: NewRand(plan.seed), rootOf: map[uint64]int{}, dense: map[uint64]int{},
-		nextID: map[int]int{}, goIdx: map[uint64]int{}, trace: map[int][]string{}, nilSeen: map[int]int{},
-		handed: map[int][]engine.Monitor{}, stamps: map[int]map[string]int64{}, goCasc: map[uint64]int{},
-		posted: map[uint64]int{}, obsRun: map[uint64]int{}, holds: map[uint64]int{}, prio: map[uint64]int{}, low: 1000, counts: map[string]int{}}
-	for i := 0; i < 3; i++ {
-		st.change = append(st.change, 1+st.rng.Intn(300))
-	}
-	CountRun(fmt.Sprintf("schedule mode %d", plan.sched))
-	if plan.ecal {
-		return c02RunEcal(plan, st)
-	}
-	proc := engine.NewProcessor(plan.workers)
-	proc.SetFailOnFirstErrorInTriggerSequence(plan.failFirst)
-	proc.ThreadPool().TooManyCallback = func() {}
-	var zFired int64
-
-	for ci := range plan.cascs {
-		ci := ci
-		c := &plan.cascs[ci]
-		st.stamps[ci] = map[string]int64{}
-		for ni := range c.nodes {
-			ni := ni
-			n := &c.nodes[ni]
-			kind := fmt.Sprintf("c%dn%d", ci, ni)
-			switch n.kind {
-			case 'z':
-				check(proc.AddRule(&engine.Rule{Name: kind + "z", KindMatch: []string{kind}, ScopeMatch: []string{},
-					StateMatch: map[string]interface{}{"never": "x"}, Priority: 0,
-					Action: func(p engine.Processor, m engine.Monitor, e *engine.Event, tid uint64) error {
-						atomic.AddInt64(&zFired, 1)
-						return nil
-					}}))
-			case 't':
-				for k := range n.rules {
-					k := k
-					rname := fmt.Sprintf("%sr%d", kind, k)
-					check(proc.AddRule(&engine.Rule{Name: rname, KindMatch: []string{kind}, ScopeMatch: []string{},
-						Priority: k,
-						Action: func(p engine.Processor, m engine.Monitor, e *engine.Event, tid uint64) error {
-							for _, ch := range n.children[k] {
-								cm := m.NewChildMonitor(0)
-								st.mu.Lock()
-								st.handed[ci] = append(st.handed[ci], cm)
-								st.mu.Unlock()
-								cname := fmt.Sprintf("c%dn%d", ci, ch)
-								if _, err := p.AddEvent(engine.NewEvent(cname, []string{cname}, nil), cm); err != nil {
-									return fmt.Errorf("AddEvent failed: %v", err)
-								}
-								if st.rng != nil && ch%2 == 1 {
-									runtime.Gosched()
-								}
-							}
-							ok := 1
-							if n.rules[k] == 'x' {
-								ok = 0
-							}
-							st.mu.Lock()
-							st.stamps[ci][fmt.Sprintf("%d.%d", ni, k)] = atomic.AddInt64(&c02Clock, 1)
-							st.rec(m.RootMonitor().ID(), fmt.Sprintf("E%d.%d.%d", st.id(m.ID()), k, ok))
-							st.mu.Unlock()
-							if ok == 0 {
-								return errors.New("E" + rname)
-							}
-							return nil
-						}}))
-				}
-			}
-		}
-	}
-	proc.SetRootMonitorErrorObserver(func(rm *engine.RootMonitor) {
-		errs := rm.AllErrors()
-		nils := c02NilEntries(errs)
-		// keep asking for a short while: other failing tasks of the cascade pass through
-		// SetErrors … Finish meanwhile (this is what makes the window reachable without hooks)
-		for i := 0; i < 300; i++ {
-			if i%8 == 7 {
-				runtime.Gosched()
-			}
-			nils += c02NilEntries(rm.AllErrors())
-		}
-		st.mu.Lock()
-		st.obsDone++
-		if ci, ok := st.rootOf[rm.ID()]; ok {
-			st.nilSeen[ci] += nils
-		}
-		st.rec(rm.ID(), fmt.Sprintf("X%d", len(errs)))
-		st.mu.Unlock()
-	})
-
-	c02Cur.Store(st)
-	defer st.flush()
-	defer c02Cur.Store(nil)
-	proc.Start()
-
-	type cres struct {
-		ret      bool
-		retStamp int64
-		handler  int64
-		rm       *engine.RootMonitor
-	}
-	res := make([]*cres, len(plan.cascs))
-	var wg sync.WaitGroup
-	for ci := range plan.cascs {
-		ci := ci
-		c := &plan.cascs[ci]
-		r := &cres{}
-		res[ci] = r
-		rm := proc.NewRootMonitor(nil, nil)
-		r.rm = rm
-		st.mu.Lock()
-		st.rootOf[rm.ID()] = ci
-		st.dense[rm.ID()] = 0
-		st.nextID[ci] = 1
-		st.handed[ci] = append(st.handed[ci], rm)
-		st.mu.Unlock()
-		name := fmt.Sprintf("c%dn0", ci)
-		ev := engine.NewEvent(name, []string{name}, nil)
-		done := make(chan struct{})
-		hdone := make(chan struct{}, 8)
-		rm.SetFinishHandler(func(p engine.Processor) {
-			atomic.AddInt64(&r.handler, 1)
-			hdone <- struct{}{}
-		})
-		wg.Add(1)
-		go func() {
-			defer wg.Done()
-			go func() {
-				st.mu.Lock()
-				st.goCasc[c02Goid()] = ci
-				st.mu.Unlock()
-				if c.mode == 'w' {
-					if _, err := proc.AddEventAndWait(ev, rm); err != nil {
-						return
-					}
-				} else {
-					m, err := proc.AddEvent(ev, rm)
-					if err != nil {
-						return
-					}
-					if m != nil {
-						<-hdone
-					}
-				}
-				r.retStamp = atomic.AddInt64(&c02Clock, 1)
-				if c.mode == 'w' {
-					n := len(rm.AllErrors())
-					st.mu.Lock()
-					st.rec(rm.ID(), fmt.Sprintf("R%d", n))
-					st.mu.Unlock()
-				}
-				close(done)
-			}()
-			r.ret = c02Await(st, ci, done)
-		}()
-	}
-	wg.Wait()
-	allRet := true
-	for _, r := range res {
-		allRet = allRet && r.ret
-	}
-	// results are taken at the moment every wait has returned
-	type snap struct {
-		fin, handed int
-		errs        []string
-		foreign     int
-	}
-	snaps := make([]snap, len(res))
-	for ci, r := range res {
-		if !r.ret {
-			continue
-		}
-		st.mu.Lock()
-		hs := append([]engine.Monitor(nil), st.handed[ci]...)
-		st.mu.Unlock()
-		s := snap{handed: len(hs)}
-		for _, m := range hs {
-			if m.(c02Fin).IsFinished() {
-				s.fin++
-			}
-		}
-		type ent struct{ n, k int; cl string }
-		var es []ent
-		for _, te := range r.rm.AllErrors() {
-			if te == nil || te.Event == nil {
-				es = append(es, ent{-1, -1, "nil"})
-				continue
-			}
-			evn := te.Event.Name()
-			if !strings.HasPrefix(evn, fmt.Sprintf("c%dn", ci)) {
-				s.foreign++
-				continue
-			}
-			node := c02EventNode(te.Event)
-			for rule, err := range te.ErrorMap {
-				k := -1
-				if strings.HasPrefix(rule, evn+"r") {
-					k, _ = strconv.Atoi(rule[len(evn)+1:])
-				}
-				cl := "?"
-				if err != nil && err.Error() == "E"+rule {
-					cl = "e"
-				}
-				es = append(es, ent{node, k, cl})
-			}
-		}
-		sort.Slice(es, func(i, j int) bool {
-			if es[i].n != es[j].n {
-				return es[i].n < es[j].n
-			}
-			return es[i].k < es[j].k
-		})
-		for _, e := range es {
-			s.errs = append(s.errs, fmt.Sprintf("%d.%d%s", e.n, e.k, e.cl))
-		}
-		snaps[ci] = s
-	}
-	if allRet {
-		proc.Finish() // every task that is still running (there should be none) ends before the stamps are read
-	}
-	var out []string
-	for ci, r := range res {
-		if !r.ret {
-			out = append(out, "ret=0")
-			continue
-		}
-		s := snaps[ci]
-		early := 0
-		st.mu.Lock()
-		for _, t := range st.stamps[ci] {
-			if t > r.retStamp {
-				early++
-			}
-		}
-		nl := st.nilSeen[ci]
-		st.mu.Unlock()
-		e := "-"
-		if len(s.errs) > 0 {
-			e = strings.Join(s.errs, ",")
-		}
-		time.Sleep(0)
-		out = append(out, fmt.Sprintf("ret=1 early=%d handler=%d fin=%d/%d errs=%s foreign=%d nil=%d",
-			early, atomic.LoadInt64(&r.handler), s.fin, s.handed, e, s.foreign, nl))
-	}
-	result := strings.Join(out, " ; ")
-	if atomic.LoadInt64(&zFired) > 0 {
-		result += " zfired"
-	}
-	st.mu.Lock()
-	defer st.mu.Unlock()
-	if st.hooks > 0 && allRet {
-		CountRun("traces")
-		result += " ~ " + strings.Join(st.gtrace, ",")
-	}
-	if !allRet {
-		c02Stuck(result)
-	}
-	return result
-}
-
-// ---------------------------------------------------------------- the same through ECAL sinks
-
-// c02Stamp is x.c02stamp(ci, ni, k, ok): completion stamp of a sink body (its last statement
-// before an optional raise) — needs the instance state to find the monitor.
-type c02Stamp struct{}
-
-func (c02Stamp) Run(instanceID string, vs parser.Scope, is map[string]interface{}, tid uint64, args []interface{}) (interface{}, error) {
-	st := c02Cur.Load()
-	if st == nil || len(args) != 4 {
-		return nil, nil
-	}
-	n := func(i int) int { f, _ := args[i].(float64); return int(f) }
-	st.mu.Lock()
-	defer st.mu.Unlock()
-	st.stamps[n(0)][fmt.Sprintf("%d.%d", n(1), n(2))] = atomic.AddInt64(&c02Clock, 1)
-	if m, ok := is["monitor"].(engine.Monitor); ok {
-		st.rec(m.RootMonitor().ID(), fmt.Sprintf("E%d.%d.%d", st.id(m.ID()), n(2), n(3)))
-	}
-	return nil, nil
-}
-func (c02Stamp) DocString() (string, error) { return "harness function", nil }
-
-func c02EcalSource(plan *c02Plan) string {
-	var sb strings.Builder
-	for ci := range plan.cascs {
-		c := &plan.cascs[ci]
-		for ni := range c.nodes {
-			n := &c.nodes[ni]
-			kind := fmt.Sprintf("c%dn%d", ci, ni)
-			switch n.kind {
-			case 'z':
-				fmt.Fprintf(&sb, "sink %sz\n kindmatch [\"%s\"],\n statematch {\"never\": \"x\"},\n priority 0\n{\n x.c02stamp(%d, %d, 99, 1)\n}\n", kind, kind, ci, ni)
-			case 't':
-				for k := range n.rules {
-					fmt.Fprintf(&sb, "sink %sr%d\n kindmatch [\"%s\"],\n priority %d\n{\n", kind, k, kind, k)
-					for _, ch := range n.children[k] {
-						fmt.Fprintf(&sb, " addEvent(\"c%dn%d\", \"c%dn%d\", {})\n", ci, ch, ci, ch)
-					}
-					ok := 1
-					if n.rules[k] == 'x' {
-						ok = 0
-					}
-					fmt.Fprintf(&sb, " x.c02stamp(%d, %d, %d, %d)\n", ci, ni, k, ok)
-					if ok == 0 {
-						fmt.Fprintf(&sb, " raise(\"c02\", \"E%sr%d\")\n", kind, k)
-					}
-					sb.WriteString("}\n")
-				}
-			}
-		}
-	}
-	return sb.String()
-}
-
-func c02RunEcal(plan *c02Plan, st *c02State) string {
-	config.Config[config.WorkerCount] = plan.workers
-	erp := interpreter.NewECALRuntimeProvider("c02", nil, &memLog{})
-	erp.Cron.Stop()
-	proc := erp.Processor
-	proc.SetFailOnFirstErrorInTriggerSequence(plan.failFirst)
-	proc.ThreadPool().TooManyCallback = func() {}
-	proc.SetRootMonitorErrorObserver(func(rm *engine.RootMonitor) {
-		errs := rm.AllErrors()
-		nils := c02NilEntries(errs)
-		// keep asking for a short while: other failing tasks of the cascade pass through
-		// SetErrors … Finish meanwhile (this is what makes the window reachable without hooks)
-		for i := 0; i < 300; i++ {
-			if i%8 == 7 {
-				runtime.Gosched()
-			}
-			nils += c02NilEntries(rm.AllErrors())
-		}
-		st.mu.Lock()
-		st.obsDone++
-		if ci, ok := st.rootOf[rm.ID()]; ok {
-			st.nilSeen[ci] += nils
-		}
-		st.rec(rm.ID(), fmt.Sprintf("X%d", len(errs)))
-		st.mu.Unlock()
-	})
-	for ci := range plan.cascs {
-		st.stamps[ci] = map[string]int64{}
-	}
-	vs := newGlobalScope()
-	// a harmless statement in front: a plan without any sink gives an otherwise empty program
-	ast, err := parser.ParseWithRuntime("c02", "c02loaded := 1\n"+c02EcalSource(plan), erp)
-	if err == nil {
-		if err = ast.Runtime.Validate(); err == nil {
-			_, err = ast.Runtime.Eval(vs, make(map[string]interface{}), erp.NewThreadID())
-		}
-	}
-	if err != nil {
-		return "ECAL-SETUP-ERROR " + oneLine(err.Error())
-	}
-	c02Cur.Store(st)
-	defer st.flush()
-	defer c02Cur.Store(nil)
-	proc.Start()
-
-	type cres struct {
-		ret      bool
-		retStamp int64
-		val      interface{}
-		err      error
-	}
-	res := make([]*cres, len(plan.cascs))
-	var wg sync.WaitGroup
-	for ci := range plan.cascs {
-		ci := ci
-		r := &cres{}
-		res[ci] = r
-		call, err := parser.ParseWithRuntime("c02call", fmt.Sprintf("addEventAndWait(\"c%dn0\", \"c%dn0\", {})", ci, ci), erp)
-		if err == nil {
-			err = call.Runtime.Validate()
-		}
-		if err != nil {
-			return "ECAL-SETUP-ERROR " + oneLine(err.Error())
-		}
-		done := make(chan struct{})
-		wg.Add(1)
-		go func() {
-			defer wg.Done()
-			go func() {
-				st.mu.Lock()
-				st.goCasc[c02Goid()] = ci
-				st.mu.Unlock()
-				r.val, r.err = call.Runtime.Eval(vs.NewChild(fmt.Sprintf("casc%d", ci)), make(map[string]interface{}), erp.NewThreadID())
-				r.retStamp = atomic.AddInt64(&c02Clock, 1)
-				n := 9999
-				if items, ok := r.val.([]interface{}); ok || r.val == nil {
-					n = len(items)
-				}
-				st.mu.Lock()
-				st.rec(c02RootOfCasc(st, ci), fmt.Sprintf("R%d", n))
-				st.mu.Unlock()
-				close(done)
-			}()
-			r.ret = c02Await(st, ci, done)
-		}()
-	}
-	wg.Wait()
-	allRet := true
-	for _, r := range res {
-		allRet = allRet && r.ret
-	}
-	if allRet {
-		proc.Finish()
-	}
-	var out []string
-	for ci, r := range res {
-		if !r.ret {
-			out = append(out, "ret=0")
-			continue
-		}
-		if r.err != nil {
-			out = append(out, "ret=ERR "+oneLine(r.err.Error()))
-			continue
-		}
-		type ent struct {
-			n, k int
-			cl   string
-		}
-		var es []ent
-		foreign := 0
-		items, _ := r.val.([]interface{})
-		for _, it := range items {
-			im, _ := it.(map[interface{}]interface{})
-			evm, _ := im["event"].(map[interface{}]interface{})
-			evn := fmt.Sprint(evm["name"])
-			if !strings.HasPrefix(evn, fmt.Sprintf("c%dn", ci)) {
-				foreign++
-				continue
-			}
-			node, _ := strconv.Atoi(evn[strings.Index(evn, "n")+1:])
-			em, _ := im["errors"].(map[interface{}]interface{})
-			for rk, rv := range em {
-				rule := fmt.Sprint(rk)
-				k := -1
-				if strings.HasPrefix(rule, evn+"r") {
-					k, _ = strconv.Atoi(rule[len(evn)+1:])
-				}
-				cl := "?"
-				if d, ok := rv.(map[interface{}]interface{}); ok && fmt.Sprint(d["detail"]) == "E"+rule && fmt.Sprint(d["type"]) == "c02" {
-					cl = "e"
-				}
-				es = append(es, ent{node, k, cl})
-			}
-		}
-		sort.Slice(es, func(i, j int) bool {
-			if es[i].n != es[j].n {
-				return es[i].n < es[j].n
-			}
-			return es[i].k < es[j].k
-		})
-		var el []string
-		for _, e := range es {
-			el = append(el, fmt.Sprintf("%d.%d%s", e.n, e.k, e.cl))
-		}
-		e := "-"
-		if len(el) > 0 {
-			e = strings.Join(el, ",")
-		}
-		early := 0
-		st.mu.Lock()
-		for _, t := range st.stamps[ci] {
-			if t > r.retStamp {
-				early++
-			}
-		}
-		nl := st.nilSeen[ci]
-		st.mu.Unlock()
-		out = append(out, fmt.Sprintf("ret=1 early=%d handler=- fin=- errs=%s foreign=%d nil=%d", early, e, foreign, nl))
-	}
-	result := strings.Join(out, " ; ")
-	st.mu.Lock()
-	defer st.mu.Unlock()
-	if st.hooks > 0 && allRet {
-		CountRun("traces")
-		result += " ~ " + strings.Join(st.gtrace, ",")
-	}
-	if !allRet {
-		c02Stuck(result)
-	}
-	return result
-}
-
 // c02RootOfCasc finds the go id of the root monitor bound to cascade ci (caller holds st.mu).
 func c02RootOfCasc(st *c02State, ci int) uint64 {
 	for r, c := range st.rootOf {
@@ -1137,10 +715,13 @@ func init() {
 			}
 			verifhook.SetHandler(c02Hook)
 			xPkgOnce.Do(func() { stdlib.AddStdlibPkg("x", "verification harness functions") })
-			check(stdlib.AddStdlibFunc("x", "c02stamp", c02Stamp{}))
+			check(stdlib.AddStdlibFunc("x", "c02stamp", c02XFn{c02FnStamp}))
+			check(stdlib.AddStdlibFunc("x", "c02expect", c02XFn{c02FnExpect}))
+			check(stdlib.AddStdlibFunc("x", "c02result", c02XFn{c02FnResult}))
 		},
 		Gen: func(g *Gen) {
 			ecalMode := false
+			flags := ""
 			emit := func(workers int, ff bool, sched int, cs []c02Casc) {
 				var parts []string
 				for i := range cs {
@@ -1149,6 +730,16 @@ func init() {
 				f, d := 0, sched
 				if ff {
 					f = 1
+				}
+				// every nested wait occupies a worker while it waits: with all of them waiting at
+				// the same time one more worker must be free (workers <= nesting is a deadlock of
+				// the design, not generated: documented limitation)
+				nestedWaits := 0
+				for _, ps := range parts {
+					nestedWaits += strings.Count(ps+"/", ".n/")
+				}
+				if workers < nestedWaits+1 {
+					workers = nestedWaits + 1
 				}
 				g.Count(fmt.Sprintf("cascades=%d", len(cs)))
 				g.Count(fmt.Sprintf("workers=%d", workers))
@@ -1160,7 +751,7 @@ func init() {
 						parts[i] = "w" + parts[i][1:]
 					}
 				}
-				g.Emit(fmt.Sprintf("W%d,F%d,S%d,D%d,M%d %s", workers, f, g.R.Intn(1<<30), d, m, strings.Join(parts, " ")))
+				g.Emit(fmt.Sprintf("W%d,F%d,S%d,D%d,M%d%s %s", workers, f, g.R.Intn(1<<30), d, m, flags, strings.Join(parts, " ")))
 			}
 			lit := func(s string) c02Casc { return c02Parse("W1 " + s).cascs[0] }
 			// corpus: the shapes of the repaired defect (several failing tasks in one cascade, error
@@ -1201,7 +792,31 @@ func init() {
 				g.Count("corpus wide failing cascade")
 				emit(16, false, []int{1, 0, 3, 5, 1, 4}[i%6], []c02Casc{lit(wide)})
 			}
+			// nested waits (workers >= depth + 1), detached events, blocking actions, nil monitor, no
+			// handler / no error observer, priorities; through ECAL: scope argument, loop, user function, return
+			for _, c := range []string{
+				"w=-.-.t.o/0.0.t.x.n/1.0.t.x", "w=-.-.t.ox/0.0.t.o.n/1.0.t.x.n/2.0.t.x", "a=-.-.t.X/0.0.t.O.d/1.0.t.x/0.0.t.o.d",
+				"w=-.-.t.OX/0.1.t.x/0.0.t.O/2.0.t.X", "w=-.-.t.xo/0.1.t.o.n/0.0.s.-.d/0.0.s.-.n",
+			} {
+				for k, w := range []int{3, 4, 16} {
+					g.Count("corpus rich")
+					flags = []string{"", ",H0,P1", ",E0"}[k]
+					emit(w, false, []int{0, 5, 4}[k], []c02Casc{lit(c)})
+					emit(w, true, 1, []c02Casc{lit(c), lit(c)})
+				}
+			}
+			flags = ""
 			ecalMode = true
+			for _, c := range []string{
+				"w=-.-.t.o/0.0.t.x.l/0.0.t.x.u/0.0.t.x.d/0.0.t.x", "w=-.-.t.or/0.0.t.r/0.1.t.x.n/2.0.t.r",
+				"w=-.-.t.Ox/0.0.t.o.n/1.0.t.x.l/0.1.t.X.u",
+			} {
+				for _, w := range []int{3, 8} {
+					g.Count("corpus rich")
+					emit(w, false, 0, []c02Casc{lit(c)})
+					emit(w, true, 5, []c02Casc{lit(c)})
+				}
+			}
 			for _, c := range corpus[:2] {
 				g.Count("corpus")
 				emit(4, false, 1, []c02Casc{lit(c)})
@@ -1252,12 +867,31 @@ func init() {
 					maxNodes = 2 + g.R.Intn(5)
 				}
 				pf := []int{0, 15, 30, 60}[g.R.Intn(4)]
+				ecalMode = i%5 == 4
+				rich := i%3 == 1
+				nested := 2
 				var cs []c02Casc
 				for k := 0; k < nc; k++ {
-					cs = append(cs, c02GenCasc(g.R, maxNodes, pf))
+					cs = append(cs, c02GenCasc(g.R, maxNodes, pf, rich, ecalMode, &nested))
 				}
-				ecalMode = i%5 == 4
+				if 2-nested >= workers {
+					workers = 3 - nested // every nested wait occupies a worker: one more must be free
+				}
+				flags = ""
+				if rich {
+					g.Count("rich plans (nested/detached/blocking/…)")
+					if g.R.Intn(8) == 0 {
+						flags += ",H0"
+					}
+					if g.R.Intn(8) == 0 {
+						flags += ",E0"
+					}
+					if g.R.Intn(3) == 0 {
+						flags += ",P1"
+					}
+				}
 				emit(workers, g.R.Intn(4) == 0, []int{0, 0, 0, 0, 0, 1, 1, 1, 2, 2, 2, 3, 3, 3, 4, 4, 4, 4, 5, 5}[g.R.Intn(20)], cs)
+				flags = ""
 				ecalMode = false
 			}
 		},
